@@ -115,6 +115,27 @@ def schedule_scenarios(seed, n):
             st["adapt_options"] = ao
         out.append({"preset": preset, "dim": dim, "density": dens, "settings": st, "seed": rnd.randrange(1 << 30),
                     "chain": rnd.randrange(3), "init": [rnd.uniform(-1, 1) for _ in range(dim)]})
+    # short warm-ups in which rejected draws delay the first transformation change (and with it the re-run of the
+    # step-size search) to the last warm-up draw: 24 chains with num_tune 3..6, shallow trees, awkward targets
+    r2 = random.Random(seed * 31 + 7)
+    for i in range(24 if n >= 90 else 8):
+        dim = r2.choice([2, 3, 5])
+        out.append({"preset": r2.choice(["diag_nuts", "lowrank_nuts"]), "dim": dim, "density": r2.choice(DENS),
+                    "settings": {"num_tune": r2.choice([3, 4, 4, 5, 6]), "num_draws": 4, "seed": r2.randrange(1 << 30),
+                                 "maxdepth": r2.choice([1, 2, 5]), "store_unconstrained": True, "store_gradient": True,
+                                 "adapt_options": {"step_size_settings": {"jitter": None}}},
+                    "seed": r2.randrange(1 << 30), "chain": 0, "init": [r2.uniform(-2, 2) for _ in range(dim)]})
+    # two recorded instances of that situation (search falls back to the initial step on the last warm-up draw)
+    out.append({"preset": "diag_nuts", "dim": 5, "density": {"kind": "Normal", "mu": [3.0], "sd": [1.0, 2.0, 0.5]},
+                "settings": {"num_tune": 4, "num_draws": 4, "seed": 229171712, "maxdepth": 2,
+                             "adapt_options": {"step_size_settings": {"jitter": None}}},
+                "seed": 26380590, "chain": 0,
+                "init": [-0.8010983479410125, 1.0344725240211745, -1.7262563395760484, 1.9595017085441673, 1.715101199715606]})
+    out.append({"preset": "diag_nuts", "dim": 5, "density": {"kind": "Banana", "b": 0.5},
+                "settings": {"num_tune": 4, "num_draws": 4, "seed": 699167321, "maxdepth": 2,
+                             "adapt_options": {"step_size_settings": {"jitter": None}}},
+                "seed": 306787642, "chain": 0,
+                "init": [0.7555413858088844, 1.5664481377917934, -1.882684583418909, -0.4416382054378474, -0.6031120297114234]})
     return out
 
 
